@@ -180,7 +180,10 @@ type c15tCase struct {
 	Scenario string `json:"scenario"`
 	Events   int    `json:"events_before_crash"`
 	Tail     int    `json:"bytes_of_the_torn_record_on_disk"`
-	Then     string `json:"second_incarnation"` // "more" (three events further) | "finish" (the whole schedule) | "other"/"timeouts" (that C04 continuation, then the whole schedule)
+	// Pad: records (timeouts of height 0, ignored by the replay) written and synced right after the first start-up, so that the
+	// head is longer than the buffers of any reader in front of the damage
+	Pad  int    `json:"padding_records,omitempty"`
+	Then string `json:"second_incarnation"` // "more" (three events further) | "finish" (the whole schedule) | "other"/"timeouts" (that C04 continuation, then the whole schedule)
 }
 
 // c15tReadLog decodes the node's whole WAL; it returns the number of records, the end-height markers seen and the first error.
@@ -222,6 +225,12 @@ func c15tRun(c c15tCase) (key, what string, recLen int, finished bool, inconcl s
 	if err != nil {
 		n.kill()
 		return "node:start-up-fails", err.Error(), 0, false, ""
+	}
+	for i := 0; i < c.Pad; i++ {
+		if err := n.cs.wal.Write(timeoutInfo{Duration: time.Duration(1000 + i), Height: 0, Round: 0, Step: 1}); err != nil {
+			n.kill()
+			return "consensus/wal:write-fails", err.Error(), 0, false, ""
+		}
 	}
 	d := &c04Driver{env: env, n: n, budget: c.Events}
 	d.script(c.Scenario)
@@ -364,6 +373,7 @@ func TestVerifC15Torn(t *testing.T) {
 	for t := 1; t < recLen; t++ {
 		tails = append(tails, t)
 	}
+	pads := []int{0, 320} // 320 records of 28 bytes: the head is longer than 8 KiB before the scenario's own records
 	thens := []string{"more", "finish"}
 	if thorough {
 		thens = append(thens, "other", "timeouts")
@@ -374,45 +384,50 @@ func TestVerifC15Torn(t *testing.T) {
 		for ev := 1; ev < 80 && !done; ev++ {
 			for _, tl := range tails {
 				for _, then := range thens {
-					n++
-					if done || !r.Mine(n) {
-						continue
-					}
-					if r.Deadline("C15 torn-record points") {
-						return
-					}
-					c := c15tCase{Scenario: sc, Events: ev, Tail: tl, Then: then}
-					key, what, rl, finished, inconcl := c15tRun(c)
-					if finished {
-						done = true // the schedule ended before the budget: same as the previous event count
-						continue
-					}
-					if inconcl != "" {
-						r.Add("inconclusive", 1)
-						continue
-					}
-					if rl != recLen {
-						r.Cap(fmt.Sprintf("record length %d differs from the probed %d", rl, recLen))
-						continue
-					}
-					r.Eval()
-					r.NTCount(1)
-					if key != "" {
-						if k2, _, _, _, _ := c15tRun(c); k2 != key {
-							r.Cap("a violation did not reproduce on re-execution; it was not reported")
+					for _, pad := range pads {
+						n++
+						if done || !r.Mine(n) {
 							continue
 						}
-						r.Outcome(key)
-						r.Violation(key, what, c)
-					} else {
-						r.Outcome(fmt.Sprintf("log-readable-and-same-state-after-second-restart/%s/second-incarnation-reached-height-%d", then, c15tLastHeight))
-					}
-					if n%37 == 0 {
-						r.Sample(c)
+						if pad > 0 && !thorough && tl != 1 && tl != 5 && tl != recLen-1 {
+							continue // the long head with three tear positions in the quick tier, with all of them in thorough
+						}
+						if r.Deadline("C15 torn-record points") {
+							return
+						}
+						c := c15tCase{Scenario: sc, Events: ev, Tail: tl, Then: then, Pad: pad}
+						key, what, rl, finished, inconcl := c15tRun(c)
+						if finished {
+							done = true // the schedule ended before the budget: same as the previous event count
+							continue
+						}
+						if inconcl != "" {
+							r.Add("inconclusive", 1)
+							continue
+						}
+						if rl != recLen {
+							r.Cap(fmt.Sprintf("record length %d differs from the probed %d", rl, recLen))
+							continue
+						}
+						r.Eval()
+						r.NTCount(1)
+						if key != "" {
+							if k2, _, _, _, _ := c15tRun(c); k2 != key {
+								r.Cap("a violation did not reproduce on re-execution; it was not reported")
+								continue
+							}
+							r.Outcome(key)
+							r.Violation(key, what, c)
+						} else {
+							r.Outcome(fmt.Sprintf("log-readable-and-same-state-after-second-restart/%s/second-incarnation-reached-height-%d", then, c15tLastHeight))
+						}
+						if n%37 == 0 {
+							r.Sample(c)
+						}
 					}
 				}
 			}
 		}
 	}
-	r.Bound = "every event count of both schedules; " + "every byte length of the torn record; continuations " + strings.Join(thens, ",")
+	r.Bound = "every event count of both schedules; " + "every byte length of the torn record; continuations " + strings.Join(thens, ",") + "; head without and with 320 leading records"
 }
